@@ -109,3 +109,181 @@ Example exit_example :
      mk_wq 1 false true [ROpt (mk_optrr 0 [])]; mk_wq 1 true true [ROpt (mk_optrr 0 [])]] /\
   exit_reply_counts b (mk_ipb 4 3325256711) q = [0].
 Proof. vm_compute. repeat split; reflexivity. Qed.
+
+(* ------------------------------------------------------------------ resolver mode *)
+Lemma hop_sends_same own extra i h q : In q (hop_sends own extra i h) -> rq_own q = own /\ rq_extra q = extra /\ rq_server q = i.
+Proof.
+  unfold hop_sends. intros [<-|H]; [repeat split|].
+  destruct (h =? 0); [contradiction|]. destruct H as [<-|[]]. repeat split.
+Qed.
+
+Lemma line_sends_same own extra : forall hops i q,
+  In q (line_sends own extra i hops) -> rq_own q = own /\ rq_extra q = extra /\ i <= rq_server q < i + N.of_nat (length hops).
+Proof.
+  induction hops as [|h r IH]; intros i q H; cbn [line_sends] in H; [contradiction|].
+  apply in_app_or in H. destruct H as [H|H].
+  - destruct (hop_sends_same _ _ _ _ _ H) as [A [B C]]. cbn [length]. repeat split; auto; lia.
+  - destruct (IH _ _ H) as [A [B C]]. cbn [length]. repeat split; auto; lia.
+Qed.
+
+(* every query is either on the client's own line with the rewritten request's additional section, or a
+   question of the resolver's own with the sub-pipeline's *)
+Lemma resolver_line_same out sub glueless : forall hops i q,
+  In q (resolver_line out sub glueless i hops) ->
+  (rq_own q = true /\ rq_extra q = out /\ i <= rq_server q < i + N.of_nat (length hops)) \/
+  (rq_own q = false /\ rq_extra q = sub /\ glueless = true).
+Proof.
+  induction hops as [|h r IH]; intros i q H; [contradiction|].
+  cbn [resolver_line] in H. destruct r as [|h2 r].
+  - apply in_app_or in H. destruct H as [H|H].
+    + destruct glueless; [|contradiction]. right.
+      destruct (line_sends_same _ _ _ _ _ H) as [A [B _]]. auto.
+    + left. destruct (hop_sends_same _ _ _ _ _ H) as [A [B C]]. cbn [length]. repeat split; auto; lia.
+  - apply in_app_or in H. destruct H as [H|H].
+    + left. destruct (hop_sends_same _ _ _ _ _ H) as [A [B C]]. cbn [length]. repeat split; auto; lia.
+    + destruct (IH _ _ H) as [[A [B C]]|R]; [left|right; exact R].
+      cbn [length] in *. repeat split; auto; lia.
+Qed.
+
+(* the first server of the chain is always asked, over UDP, on the client's line *)
+Lemma resolver_line_first out sub glueless i h r :
+  In (mk_rq true i false out) (resolver_line out sub glueless i (h :: r)).
+Proof.
+  cbn [resolver_line]. destruct r.
+  - apply in_or_app. right. left. reflexivity.
+  - apply in_or_app. left. left. reflexivity.
+Qed.
+
+(* with a glue-less delegation the resolver's own questions do occur (the statement about them is not vacuous) *)
+Lemma resolver_line_sub_occurs out sub i h r :
+  In (mk_rq false 0 false sub) (resolver_line out sub true i (h :: r)).
+Proof.
+  revert i h. induction r as [|h2 r IH]; intros i h.
+  - cbn. left. reflexivity.
+  - change (In (mk_rq false 0 false sub) (hop_sends true out i h ++ resolver_line out sub true (i + 1) (h2 :: r))).
+    apply in_or_app. right. apply IH.
+Qed.
+
+Lemma sub_query_extra_shape b :
+  sub_query_extra b = set_edns0 (policy_of b) (addr_from_slice_unmap internal_remote) [ROpt (mk_optrr 0 [])].
+Proof. reflexivity. Qed.
+
+(* nothing rides on a question of the resolver's own: one OPT, no option — whatever the policy *)
+Lemma sub_query_extra_bare b : count_opt (sub_query_extra b) = 1%nat /\ all_options (sub_query_extra b) = [].
+Proof.
+  rewrite sub_query_extra_shape. split; [apply set_edns0_one_opt|].
+  destruct (all_client_options_stripped_lemma (policy_of b) (addr_from_slice_unmap internal_remote) [ROpt (mk_optrr 0 [])]) as [_ [_ [_ D]]].
+  apply D. reflexivity.
+Qed.
+
+Lemma internal_remote_is_internal_client : addr_from_slice_unmap internal_remote = internal_client.
+Proof. vm_compute. reflexivity. Qed.
+
+Lemma chase_line_same sub glueless alias q :
+  In q (chase_line sub glueless alias) -> rq_own q = false /\ rq_extra q = sub /\ alias = true.
+Proof.
+  unfold chase_line. destruct alias; [|contradiction]. intros H.
+  destruct glueless; destruct (line_sends_same _ _ _ _ _ H) as [A [B _]]; auto.
+Qed.
+
+Lemma exit_resolver_same b remote extra glueless alias hops q :
+  In q (exit_resolver b remote extra glueless alias hops) ->
+  (rq_own q = true /\ rq_extra q = set_edns0 (policy_of b) (addr_from_slice_unmap remote) extra /\
+   rq_server q < N.of_nat (length hops)) \/
+  (rq_own q = false /\ rq_extra q = sub_query_extra b /\ (glueless = true \/ alias = true)).
+Proof.
+  unfold exit_resolver, edns_serve. cbn [snd].
+  destruct (match last_opt extra with Some o => negb (o_version o =? 0) | None => false end); [contradiction|].
+  intros H. apply in_app_or in H. destruct H as [H|H].
+  - destruct (resolver_line_same _ _ _ _ _ _ H) as [[A [B C]]|[A [B C]]]; [left|right; auto].
+    repeat split; auto. lia.
+  - right. destruct (chase_line_same _ _ _ _ H) as [A [B C]]. auto.
+Qed.
+
+(* an alias makes the process ask a question of its own (the statement about them is not vacuous) *)
+Lemma exit_resolver_chase_occurs b remote extra glueless hops :
+  (match last_opt extra with Some o => o_version o =? 0 | None => true end) = true ->
+  exists q, In q (exit_resolver b remote extra glueless true hops) /\ rq_own q = false.
+Proof.
+  intros V. unfold exit_resolver, edns_serve. cbn [snd].
+  replace (match last_opt extra with Some o => negb (o_version o =? 0) | None => false end) with false
+    by (destruct (last_opt extra); [rewrite V|]; reflexivity).
+  destruct glueless.
+  - exists (mk_rq false 2 false (sub_query_extra b)). split; [|reflexivity].
+    apply in_or_app. right. cbn. left. reflexivity.
+  - exists (mk_rq false 0 false (sub_query_extra b)). split; [|reflexivity].
+    apply in_or_app. right. cbn. left. reflexivity.
+Qed.
+
+(* the property's first sentence where queries leave the process in resolver mode *)
+Lemma exit_resolver_private b remote extra glueless alias hops q :
+  In q (exit_resolver b remote extra glueless alias hops) ->
+  let client := addr_from_slice_unmap remote in
+  let out := all_options (rq_extra q) in
+  count_opt (rq_extra q) = 1%nat /\
+  (rq_own q = false -> out = []) /\
+  (forall o, In o out -> exists e, o = OEcs e /\ allows (policy_of b) client = true /\
+                                   exists cs, In (OEcs cs) (all_options extra) /\ clamp (policy_of b) (Some cs) = Some e) /\
+  (length out <= 1)%nat /\
+  (allows (policy_of b) client = false -> out = []) /\
+  (has_ecs (all_options extra) = false -> out = []) /\
+  (build_valid b = false -> out = []).
+Proof.
+  intros H client out. destruct (exit_resolver_same _ _ _ _ _ _ _ H) as [[O [E _]]|[O [E _]]]; subst out; rewrite E.
+  - fold client.
+    destruct (all_client_options_stripped_lemma (policy_of b) client extra) as [A [B [C D]]].
+    split; [apply set_edns0_one_opt|].
+    split; [rewrite O; discriminate|].
+    split.
+    { intros o Ho. destruct (A o Ho) as [e ->]. exists e. split; [reflexivity|].
+      apply (upstream_ecs_only_when_allowed_lemma (policy_of b) client extra e Ho). }
+    split; [exact B|]. split; [exact C|]. split; [exact D|].
+    intros Hb. destruct (invalid_config_disables_lemma b Hb) as [_ [_ [_ [_ [F _]]]]]. apply F.
+  - destruct (sub_query_extra_bare b) as [C Z]. rewrite Z.
+    split; [exact C|]. split; [reflexivity|]. split; [intros o []|].
+    cbn. repeat split; auto; lia.
+Qed.
+
+Lemma exit_resolver_own_agree b remote extra glueless alias hops q1 q2 :
+  In q1 (exit_resolver b remote extra glueless alias hops) -> In q2 (exit_resolver b remote extra glueless alias hops) ->
+  rq_own q1 = rq_own q2 -> rq_extra q1 = rq_extra q2.
+Proof.
+  intros H1 H2 E.
+  destruct (exit_resolver_same _ _ _ _ _ _ _ H1) as [[O1 [A1 _]]|[O1 [A1 _]]];
+  destruct (exit_resolver_same _ _ _ _ _ _ _ H2) as [[O2 [A2 _]]|[O2 [A2 _]]]; congruence.
+Qed.
+
+Lemma exit_resolver_badvers b remote extra glueless alias hops o :
+  last_opt extra = Some o -> o_version o <> 0 -> exit_resolver b remote extra glueless alias hops = [].
+Proof.
+  intros H V. unfold exit_resolver, edns_serve. cbn [snd]. rewrite H.
+  destruct (N.eqb_spec (o_version o) 0); [contradiction|]. reflexivity.
+Qed.
+
+(* the resolver's own questions do not depend on the client at all: two clients, two additional sections,
+   same configuration — the same octets *)
+Lemma exit_resolver_sub_blind b r1 r2 e1 e2 g1 g2 a1 a2 h1 h2 q1 q2 :
+  In q1 (exit_resolver b r1 e1 g1 a1 h1) -> In q2 (exit_resolver b r2 e2 g2 a2 h2) ->
+  rq_own q1 = false -> rq_own q2 = false -> rq_extra q1 = rq_extra q2.
+Proof.
+  intros H1 H2 O1 O2.
+  destruct (exit_resolver_same _ _ _ _ _ _ _ H1) as [[X _]|[_ [A1 _]]]; [congruence|].
+  destruct (exit_resolver_same _ _ _ _ _ _ _ H2) as [[X _]|[_ [A2 _]]]; [congruence|]. congruence.
+Qed.
+
+(* non-vacuity: an eligible client's /32 and a cookie; glue-less delegation; the zone's server truncates;
+   the name is an alias: root, TLD, three questions of the resolver's own (bare OPT), the zone's server
+   over UDP and TCP, the chase (bare OPT) at the target zone's server; and without policy, with glue: the
+   chase walks from the root *)
+Example exit_resolver_example :
+  let b := mk_bargs true 0 0 0 0 [] in
+  let q := [ROpt (mk_optrr 0 [OEcs (mk_ecs 1 32 0 (mk_ipb 4 3405803853)); OOther 10])] in
+  let fw := [ROpt (mk_optrr 0 [OEcs (mk_ecs 1 24 0 (mk_ipb 4 3405803776))])] in
+  let bare := [ROpt (mk_optrr 0 [])] in
+  exit_resolver b (mk_ipb 4 3325256711) q true true [0; 0; 1] =
+    [mk_rq true 0 false fw; mk_rq true 1 false fw; mk_rq false 0 false bare; mk_rq false 1 false bare;
+     mk_rq false 2 false bare; mk_rq true 2 false fw; mk_rq true 2 true fw; mk_rq false 2 false bare] /\
+  exit_resolver (mk_bargs false 0 0 0 0 []) (mk_ipb 4 3325256711) q false true [1; 0; 0] =
+    [mk_rq true 0 false bare; mk_rq true 0 true bare; mk_rq true 1 false bare; mk_rq true 2 false bare;
+     mk_rq false 0 false bare; mk_rq false 1 false bare; mk_rq false 2 false bare].
+Proof. vm_compute. split; reflexivity. Qed.
